@@ -31,9 +31,11 @@ PROPERTIES = ["PharmpyProofs/C16/Properties.lean"]
 LEAN_SOURCES = ["PharmpyModel/C16/*.lean", "PharmpyProofs/C16/*.lean", "Drivers/C16.lean"]
 TIME_LIMIT = {"quick": 900, "thorough": 3000}
 CASE_CPU_LIMIT = 240
-RULE = ("workloads of 1-4 store calls (Context.store_model_entry, db.store_model_entry, db.store_metadata) over a pool of 7 "
-        "model entries (A, A2 = A renamed, AR = A with results, B sharing A's dataset, C other dataset with equal datainfo, "
-        "D = A's dataset with another datainfo, E = A's name with another model) interleaved with 0-3 log messages and "
+RULE = ("workloads of 1-4 store calls (Context.store_model_entry, db.store_model_entry, db.store_metadata) over a pool of 9 "
+        "model entries (A, A2 = A renamed, AR = A with results, B sharing A's dataset, BR = B with results, AL = A with an entry "
+        "log but no results, C other dataset with equal datainfo, D = A's dataset with another datainfo, E = A's name with "
+        "another model); the results of AR/BR and the entry AL carry logs generated per case: 0-30 messages (lengths biased to "
+        "0,1,2,9,10,11,12,13,19,20,21,30) of the awkward texts below; interleaved with 0-3 log messages and "
         "annotations from a generator biased to quotes, commas, newlines, NA strings, empty, numerals, unicode; EVERY crash "
         "point of the operation trace is visited (operation k does not happen) plus torn variants (empty, half, all but one "
         "character) of every content write, and every such point again as an EXCEPTION fault (the operation raises OSError, "
@@ -61,12 +63,14 @@ ASSUMPTIONS = [
     "compared by the monitor only",
 ]
 
-POOL_IDS = ["A", "A2", "AR", "B", "C", "D", "E"]
+POOL_IDS = ["A", "A2", "AR", "B", "C", "D", "E", "BR", "AL"]
+LOG_IDS = ["AR", "BR", "AL"]     # entries that carry a log (AR, BR inside their results; AL without results)
+LOG_LENGTHS = [0, 1, 2, 3, 9, 10, 11, 12, 13, 19, 20, 21, 30]
 DATE = "2026-01-02 03:04:05.000006"
 
 
 def budget(tier):
-    return int(os.environ.get("VERIF_BUDGET", 0)) or {"quick": 9, "thorough": 90}[tier]
+    return int(os.environ.get("VERIF_BUDGET", 0)) or {"quick": 8, "thorough": 90}[tier]
 
 
 # ---------------------------------------------------------------- generation
@@ -90,6 +94,18 @@ def gen_ann(rng):
     if r < 0.7:
         return rng.choice(ANN_ATOMS)
     return "".join(rng.choice("ab \n\rx") for _ in range(rng.randint(0, 8)))
+
+
+def gen_rlog(rng, minlen=0):
+    """The log of a stored entry: 0..30 messages with awkward text."""
+    n = rng.choice(LOG_LENGTHS) if rng.random() < 0.7 else rng.randint(0, 30)
+    n = max(n, minlen)
+    return [[rng.choice(["ERROR", "WARNING", "INFORMATION"]),
+             (f"#{i} " if rng.random() < 0.7 else "") + gen_msg(rng)] for i in range(n)]
+
+
+def gen_rlogs(rng):
+    return {"AR": gen_rlog(rng), "BR": gen_rlog(rng), "AL": gen_rlog(rng, 1)}
 
 
 def gen_workload(rng):
@@ -119,12 +135,13 @@ def gen_cases(rng, n, tier):
     for i in range(n):
         if i % 7 == 6:
             out.append({"kind": "text", "msgs": [gen_msg(rng) for _ in range(40)], "anns": [gen_ann(rng) for _ in range(40)],
-                        "seed": rng.randrange(1 << 30)})
+                        "rlogs": [gen_rlog(rng) for _ in range(12)], "seed": rng.randrange(1 << 30)})
             continue
         calls = gen_workload(rng)
         seed = rng.randrange(1 << 30)
+        rlogs = gen_rlogs(rng)
         for c in range(nchunks):
-            out.append({"kind": "crash", "calls": calls, "chunk": c, "nchunks": nchunks, "seed": seed})
+            out.append({"kind": "crash", "calls": calls, "rlogs": rlogs, "chunk": c, "nchunks": nchunks, "seed": seed})
     return out
 
 
@@ -151,32 +168,56 @@ def _corpus(W):
         # annotation / log rewriting
         W([["ctx-store", "A"], ["log", "info", "he said \"hi\", ok\nline2"], ["ctx-store", "C"], ["log", "error", "NA"]]),
         W([["ctx-store", "D"], ["ann", "mA", "line1\nline2"], ["db-store", "A"]]),
-        {"kind": "text", "msgs": MSG_ATOMS, "anns": ANN_ATOMS, "seed": 2},
+        # entries whose logs have more than ten messages (through results.json), one log without results
+        dict(W([["ctx-store", "AR"], ["ctx-store", "BR"], ["db-store", "AL"]]),
+             rlogs={"AR": [["WARNING" if i % 2 else "ERROR", f"A: message number {i}, \"q\", commas"] for i in range(12)],
+                    "BR": [["INFORMATION", m] for m in MSG_ATOMS], "AL": [["ERROR", "only in the entry"]]}),
+        {"kind": "text", "msgs": MSG_ATOMS, "anns": ANN_ATOMS, "seed": 2,
+         "rlogs": [[["ERROR", f"m{i}"] for i in range(n)] for n in LOG_LENGTHS]},
     ]
 
 
 def shrink(case):
     if case.get("kind") != "crash":
+        # text case: one entry log at a time, then shorter logs, without the other material
+        rl = case.get("rlogs", [])
+        if len(rl) > 1 or case.get("msgs") or case.get("anns"):
+            for lg in rl:
+                yield {"kind": "text", "msgs": [], "anns": [], "rlogs": [lg], "seed": case["seed"]}
+        elif len(rl) == 1 and len(rl[0]) > 1:
+            for n in (len(rl[0]) // 2, len(rl[0]) - 1):
+                yield dict(case, rlogs=[rl[0][:n]])
         return
     calls = case["calls"]
+    base = {k: v for k, v in case.items() if not k.startswith("_")}
     if "only" not in case and "_fail_points" not in case:
         # evaluate once in this process to learn the failing points
-        yield {**{k: v for k, v in case.items() if not k.startswith("_")}, "chunk": 0, "nchunks": 1}
+        yield {**base, "chunk": 0, "nchunks": 1}
+    pts = []
+    for pt in list(case.get("_fail_points", {}).values()) + [case.get("_fail_point")]:
+        if pt is not None and pt not in pts:
+            pts.append(pt)
+    if "only" not in case and [0, None] in pts:
+        # a failure that needs no fault: keep a single (trivial) fault point, everything else gets cheap
+        yield {**base, "only": [0, None]}
+    faultless = case.get("only") == [0, None]
     for i in range(len(calls)):
         if len(calls) > 1:
-            c = {k: v for k, v in case.items() if not k.startswith("_")}
+            c = dict(base)
             c["calls"] = calls[:i] + calls[i + 1:]
             c["chunk"], c["nchunks"] = 0, 1
+            if not faultless:
+                c.pop("only", None)
             yield c
     if "only" not in case:
-        pts = []
-        for pt in list(case.get("_fail_points", {}).values()) + [case.get("_fail_point")]:
-            if pt is not None and pt not in pts:
-                pts.append(pt)
         for pt in pts:
-            c = {k: v for k, v in case.items() if not k.startswith("_")}
-            c["only"] = pt
-            yield c
+            if pt != [0, None]:
+                yield {**base, "only": pt}
+    if "only" in case:
+        for pid, lg in case.get("rlogs", {}).items():
+            if len(lg) > 1:
+                for n in (0, len(lg) // 2, len(lg) - 1):
+                    yield {**base, "rlogs": dict(case["rlogs"], **{pid: lg[:n]})}
 
 
 # ---------------------------------------------------------------- real-code side
@@ -250,11 +291,14 @@ def worker_init():
         if not (r2 == r and r2.dataset.equals(r.dataset) and str(ModelHash(r2)) == str(ModelHash(r))):
             raise RuntimeError(f"pool model {k} is not a fixed point of store/retrieve")
         norm[k] = r
-    res = ModelfitResults(ofv=12.5, parameter_estimates=pd.Series({'POP_CL': 0.01, 'POP_VC': 1.0}))
+    from pharmpy.workflows import Log
+    from pharmpy.workflows.log import LogEntry
+    from pharmpy.workflows.results import read_results
+    G.update(Log=Log, LogEntry=LogEntry, ModelfitResults=ModelfitResults, read_results=read_results, norm=norm)
     pool = {k: ModelEntry.create(m) for k, m in norm.items()}
     pool["A2"] = ModelEntry.create(norm["A"].replace(name="mA2", description="Model A again"))
-    pool["AR"] = ModelEntry.create(norm["A"], modelfit_results=res)
     G["pool"] = pool
+    set_case_pool({})
     # labels
     keys, dhs, dis, structs = {}, {}, [], []
     desc = {}
@@ -272,6 +316,30 @@ def worker_init():
     for pid in POOL_IDS:
         desc[pid] = mdesc(pid)
     G["desc"] = desc
+
+
+OFV = {"AR": 12.5, "BR": 7.25}
+
+
+def make_log(entries):
+    import datetime
+    t0 = datetime.datetime(2026, 1, 2, 3, 4, 5)
+    return G["Log"](tuple(G["LogEntry"](category=c, message=m, time=t0 + datetime.timedelta(microseconds=i))
+                          for i, (c, m) in enumerate(entries)))
+
+
+def describe_log(log):
+    return None if log is None else [[e.category, e.message, e.time.isoformat()] for e in log]
+
+
+def set_case_pool(rlogs):
+    """The pool entries that carry a log are rebuilt for every case from the case's generated logs."""
+    pd, ME, MR, norm = G["pd"], G["ModelEntry"], G["ModelfitResults"], G["norm"]
+    pe = pd.Series({'POP_CL': 0.01, 'POP_VC': 1.0})
+    pool = G["pool"]
+    pool["AR"] = ME.create(norm["A"], modelfit_results=MR(ofv=OFV["AR"], parameter_estimates=pe, log=make_log(rlogs.get("AR", []))))
+    pool["BR"] = ME.create(norm["B"], modelfit_results=MR(ofv=OFV["BR"], parameter_estimates=pe, log=make_log(rlogs.get("BR", []))))
+    pool["AL"] = ME.create(norm["A"], log=make_log(rlogs.get("AL", [["ERROR", "only in the entry"]])))
 
 
 def _sweep_dead_scratch(base):
@@ -310,7 +378,7 @@ def mdesc(pid):
     h = G["ModelHash"](me.model)
     return {"key": G["keys"][str(h)], "dh": G["dhs"][h.dataset_hash], "di": di_label(me.model.datainfo),
             "code": struct_label(me.model) + ":" + me.model.description, "ext": "ctl",
-            "res": "R1" if me.modelfit_results is not None else "none",
+            "res": ("R1" if me.modelfit_results.ofv == OFV["AR"] else "R2") if me.modelfit_results is not None else "none",
             "digest": str(h), "name": me.model.name, "descr": me.model.description}
 
 
@@ -375,7 +443,8 @@ def entry_of(me, dbpath):
         ds, di = "none", "none"
     res = "none"
     if me.modelfit_results is not None:
-        res = "R1" if getattr(me.modelfit_results, "ofv", None) == 12.5 else "R?"
+        ofv = getattr(me.modelfit_results, "ofv", None)
+        res = "R1" if ofv == OFV["AR"] else "R2" if ofv == OFV["BR"] else "R?"
     return ["entry", struct_label(m) + ":" + m.description, ds, di, res]
 
 
@@ -621,7 +690,63 @@ def run_case(case, drv):
     return run_crash_case(case, drv)
 
 
+def log_fidelity(me, pids):
+    """The clause 'log messages in order and verbatim' for a retrieved entry, against the entries `pids` stored under
+    its key (in store order).  results.json is rewritten by every store that has results."""
+    pool = G["pool"]
+    with_res = [p for p in pids if pool[p].modelfit_results is not None]
+    if with_res:
+        want = describe_log(pool[with_res[-1]].modelfit_results.log)
+        for label, log in (("modelfit_results.log", getattr(me.modelfit_results, "log", None)), ("ModelEntry.log", me.log)):
+            got = describe_log(log)
+            if got != want:
+                first = next((i for i, (a, b) in enumerate(zip(got or [], want)) if a != b), min(len(got or []), len(want)))
+                return {"cls": "entry-log-not-verbatim",
+                        "what": f"{label} of entry {with_res[-1]} ({len(want)} messages) comes back "
+                                f"{'as None' if got is None else f'with {len(got)} messages, first difference at position {first}'}: "
+                                f"stored {[m for _, m, _ in want][:14]} retrieved {None if got is None else [m for _, m, _ in got][:14]}"}
+        return None
+    with_log = [p for p in pids if pool[p].log is not None]
+    if with_log and describe_log(me.log) != describe_log(pool[with_log[-1]].log):
+        return {"cls": "entry-log-without-results-dropped",
+                "what": f"entry {with_log[-1]} was stored with a log of {len(pool[with_log[-1]].log)} messages and no results; "
+                        f"retrieved ModelEntry.log is {describe_log(me.log)}"}
+    return None
+
+
+def k_result_log(root, digest, pid, me, drv):
+    """K for the entry log: the JSON object written for it, and what reading makes of that object."""
+    k = []
+    want = describe_log(G["pool"][pid].modelfit_results.log)
+    text = file_text(root / "ctx" / ".modeldb" / digest / ".pharmpy" / "results.json")
+    if text is None:
+        return [f"results.json of {pid} missing"]
+    top = json.loads(text, object_pairs_hook=lambda ps: ps)
+    logobj = dict((a, b) for a, b in top).get("log")
+    if logobj is None:
+        return [f"results.json of {pid} has no log object"]
+    pairs = []
+    for key, v in logobj:
+        if isinstance(v, list):
+            dv = dict(v)
+            pairs.append([key, ["entry", [dv.get("category"), dv.get("message"), dv.get("time")]]])
+        else:
+            pairs.append([key, ["str", v]])
+    enc = drv.ask(["log-encode", want])
+    if enc != pairs:
+        k.append(f"results.json log object of {pid}: code keys {[p[0] for p in pairs][:14]} model keys {[p[0] for p in enc][:14]}"
+                 + ("" if [p[0] for p in pairs] != [p[0] for p in enc] else " (values differ)"))
+    dec = drv.ask(["log-decode", pairs])
+    got = describe_log(getattr(me.modelfit_results, "log", None))
+    mdl = dec[1] if dec[0] == "ok" else None
+    if mdl != got:
+        k.append(f"log read back from results.json of {pid}: code {None if got is None else [m for _, m, _ in got][:14]} "
+                 f"model {None if mdl is None else [m for _, m, _ in mdl][:14]}")
+    return k
+
+
 def run_crash_case(case, drv):
+    set_case_pool(case.get("rlogs", {}))
     util = G["util"]
     D = G["desc"]
     k, mon, tags = [], [], []
@@ -679,11 +804,22 @@ def run_crash_case(case, drv):
         elif c[0] == "db-store":
             stored.append(c[1])
     mon += fidelity_monitors(root, calls, real_out, stored, names_in, tags, crashed=None)
+    crashfree_classes = {m["cls"] for m in mon}
     if drv is not None:
         reads = [["db-retrieve", D[p]["key"]] for p in sorted(set(stored))]
         reads += [["ctx-retrieve", nm] for nm in sorted({nm for nm, _ in names_in} | {"zz"})]
         reads += [["retrieve-log"]]
         k += compare_reads(root, reads, drv, tags)
+        by_key = {}
+        for p in stored:
+            by_key.setdefault(D[p]["key"], []).append(p)
+        for key, pids in by_key.items():
+            with_res = [p for p in pids if G["pool"][p].modelfit_results is not None]
+            if with_res:
+                out, me = real_call(root, ["db-retrieve", key])
+                if out[0] == "ok" and me.modelfit_results is not None:
+                    k += k_result_log(root, D[with_res[-1]]["digest"], with_res[-1], me, drv)
+                    tags.append("entry-log-len=%d" % len(G["pool"][with_res[-1]].modelfit_results.log))
 
     # ---------- every crash point
     points = []
@@ -767,6 +903,8 @@ def run_crash_case(case, drv):
     shutil.rmtree(root, ignore_errors=True)
     if fail_point is not None:
         case["_fail_point"] = fail_point
+    for cls in crashfree_classes:
+        fail_points.setdefault(cls, [0, None])      # fails without any fault: one point is enough for a replay
     if fail_points:
         case["_fail_points"] = fail_points
     # one report per class and case is enough
@@ -911,6 +1049,9 @@ def fidelity_monitors(root, calls, outs, stored, names_in, tags, crashed):
                 if D[first_same_data]["di"] != D[pids[0]]["di"]:
                     cls = "same-data-other-datainfo-external-path"
             mon.append({"cls": cls, "what": f"entry {pids[0]} retrieved by key differs in {bad}"})
+        lf = log_fidelity(me, pids)
+        if lf:
+            mon.append(lf)
     # by name
     final = {}
     for nm, p in names_in:
@@ -932,6 +1073,11 @@ def fidelity_monitors(root, calls, outs, stored, names_in, tags, crashed):
             mon.append({"cls": "committed-name-not-retrievable", "what": f"name {nm!r} (entry {p}) not retrievable: {err(e)}"})
             continue
         bad = [b for b in same_entry(me, me.model, p, True) if not b.startswith("results") and b != "description"]
+        if D[first[nm]]["key"] == D[p]["key"]:
+            lf = log_fidelity(me, last_by_key[D[p]["key"]])
+            if lf:
+                lf["what"] = f"by name {nm!r}: " + lf["what"]
+                mon.append(lf)
         if bad:
             rebound = D[first[nm]]["key"] != D[p]["key"]
             cls = "name-rebind-ignored" if rebound else "entry-unfaithful"
@@ -1032,6 +1178,9 @@ def probe_after_crash(croot, calls, ci, j, t, bounds, flat, drv, tags):
                 if bad and not external_ok(pids[0], stored_done + [cur[1]] if cur_key else stored_done, bad):
                     mon.append({"cls": "committed-entry-unfaithful-after-crash",
                                 "what": f"committed entry {pids[0]} (key {key}) comes back different in {bad}"})
+                lf = log_fidelity(me, pids)
+                if lf:
+                    mon.append(lf)
         elif pids:
             if out[1] == "PendingTransactionError" and key == cur_key and cur_in_txn:
                 mon.append({"cls": "stale-pending-blocks-committed-key",
@@ -1113,7 +1262,7 @@ def probe_after_crash(croot, calls, ci, j, t, bounds, flat, drv, tags):
 
     # --- 4. later stores: every pool entry on a copy of the crashed tree, then retrieve it
     for p in POOL_IDS:
-        if p in ("A2",):
+        if p in ("A2", "BR", "AL"):
             continue
         copy = fresh_dir("copy")
         shutil.rmtree(copy)
@@ -1156,6 +1305,10 @@ def probe_after_crash(croot, calls, ci, j, t, bounds, flat, drv, tags):
                 wrong = "dataset" in bad and wrong_dataset_window(croot)
                 mon.append({"cls": "wrong-dataset-after-crash" if wrong else "later-store-unfaithful",
                             "what": f"{p} stored after the crash comes back different in {bad}"})
+            lf = log_fidelity(me, committed_keys.get(key, []) + [p])
+            if lf:
+                lf["what"] = f"{p} stored after the crash: " + lf["what"]
+                mon.append(lf)
         shutil.rmtree(copy, ignore_errors=True)
     # wrong dataset needs two later stores: C takes the stale name, then B is bound to it
     if cur[0] in ("ctx-store", "db-store") and cur_in_txn and D[cur[1]]["dh"] == "H1":
@@ -1279,6 +1432,35 @@ def run_text_case(case, drv):
         if not any(x and not isinstance(x[0], str) for x in got) and mo != got:
             k.append(f"read of the whole log: code {str(got)[:200]} model {str(mo)[:200]}")
     shutil.rmtree(lroot, ignore_errors=True)
+    # entry logs through the results JSON path: ModelfitResults.to_json -> read_results, lengths 0..30
+    for entries in case.get("rlogs", []):
+        log = make_log(entries)
+        want = describe_log(log)
+        res = G["ModelfitResults"](ofv=1.0, log=log)
+        txt = res.to_json()
+        try:
+            got = describe_log(G["read_results"](txt).log)
+        except Exception as e:  # noqa
+            got = err(e)
+        tags.append("json-log-len=%s" % (len(entries) if len(entries) < 10 else "1x" if len(entries) < 20 else "2x+"))
+        if got != want:
+            first = next((i for i, (a, b) in enumerate(zip(got or [], want)) if a != b), None) if isinstance(got, list) else None
+            mon.append({"cls": "entry-log-not-verbatim",
+                        "what": f"a results log of {len(want)} messages comes back from to_json/read_results "
+                                f"{'changed at position %s' % first if isinstance(got, list) else got}: stored "
+                                f"{[m for _, m, _ in want][:14]} retrieved {[m for _, m, _ in got][:14] if isinstance(got, list) and got and len(got[0]) == 3 else got}"})
+        if drv is not None:
+            top = json.loads(txt, object_pairs_hook=lambda ps: ps)
+            logobj = dict((a, b) for a, b in top).get("log") or []
+            pairs = [[key, ["entry", [dict(v).get("category"), dict(v).get("message"), dict(v).get("time")]]
+                      if isinstance(v, list) else ["str", v]] for key, v in logobj]
+            enc = drv.ask(["log-encode", want])
+            if enc != pairs:
+                k.append(f"JSON object of a log of {len(want)} messages: code keys {[q[0] for q in pairs][:14]} model keys {[q[0] for q in enc][:14]}")
+            dec = drv.ask(["log-decode", pairs])
+            mdl = dec[1] if dec[0] == "ok" else None
+            if mdl != got:
+                k.append(f"log of {len(want)} messages read back: code {str(got)[:200]} model {str(mdl)[:200]}")
     # annotations through the real context
     root = fresh_dir("ann")
     ctx = G["LocalDirectoryContext"]("ctx", root)
